@@ -7,6 +7,7 @@ from typing import Dict, List, Optional, Set, Tuple
 
 from .. import AnalysisError
 from ..absint import EvalRaise, EvalReturn, Evaluator, Opaque, Unknown
+from ..cfg import describe_path, no_exc
 from ..program import FuncInfo, ancestors, enclosing_stmt, norm, parent, walk_local
 from . import c02, c08
 
@@ -422,32 +423,57 @@ def check_escape(ctx) -> None:
 def check_bounds(ctx) -> None:
     prog = ctx.prog
     fn = prog.func(MOD, "_sbml_to_model")
-    single = [n for n in walk_local(fn.node) if isinstance(n, ast.Assign) and isinstance(n.targets[0], ast.Attribute) and n.targets[0].attr in ("lower_bound", "upper_bound") and norm(n.targets[0].value) == "cobra_reaction"]
-    both = [n for n in walk_local(fn.node) if isinstance(n, ast.Assign) and isinstance(n.targets[0], ast.Attribute) and n.targets[0].attr == "bounds" and norm(n.targets[0].value) == "cobra_reaction"]
+    def _is_rxn(e: ast.AST) -> bool:
+        ts = ctx.inf.type_of(fn, e)
+        return any(t == ("cls", "Reaction") for t in ts) or (not ts and isinstance(e, ast.Name))
+
+    single = [n for n in walk_local(fn.node) if isinstance(n, ast.Assign) and isinstance(n.targets[0], ast.Attribute) and n.targets[0].attr in ("lower_bound", "upper_bound") and _is_rxn(n.targets[0].value)]
+    both = [n for n in walk_local(fn.node) if isinstance(n, ast.Assign) and isinstance(n.targets[0], ast.Attribute) and n.targets[0].attr == "bounds" and _is_rxn(n.targets[0].value)]
     if single:
         ctx.bad("C10.bounds", fn, single[0], "the two bounds of a reaction read from SBML are set one at a time through the validating setters: a written pair such as (2000, 3000) cannot be read back")
     elif both:
         ctx.ok("C10.bounds", fn, both[0], "both bounds are set in one validated assignment")
         v = both[0].value
-        if isinstance(v, ast.Tuple) and [norm(e) for e in v.elts] == ["lower_bound", "upper_bound"]:
-            ctx.ok("C10.bounds", fn, both[0], "(lower, upper) in this order", nontrivial=False)
+        if isinstance(v, ast.Tuple) and len(v.elts) == 2:
+            ctx.ok("C10.bounds", fn, both[0], "a (lower, upper) pair (which is which: see the getters below)", nontrivial=False)
         else:
-            ctx.bad("C10.bounds", fn, both[0], "the bounds are not assigned as (lower_bound, upper_bound)")
+            ctx.note("C10.bounds: the assigned bounds are not a two-element tuple expression; order not read")
     else:
         ctx.bad("C10.bounds", fn, fn.node, "the bounds read from the document are not applied to the reaction")
-    # the values come from the matching fbc getters
-    src = " ".join(ast.unparse(fn.node).split())
-    pairs = (("lower_bound = p_lb.getValue()", "getLowerFluxBound"), ("upper_bound = p_ub.getValue()", "getUpperFluxBound"))
-    if all(a in src and b in src for a, b in pairs) and src.index("lb_id = r_fbc.getLowerFluxBound()") < src.index("p_lb: 'libsbml.Parameter' = model.getParameter(lb_id)"):
-        ctx.ok("C10.bounds", fn, "fbc flux bounds", "lower from getLowerFluxBound, upper from getUpperFluxBound")
-    else:
-        ctx.bad("C10.bounds", fn, fn.node, "lower/upper bound are not read from their own fbc flux bound parameters")
+    # the values come from the matching fbc getters (def-use sources, no spelling prescribed)
+    for st in both[:1]:
+        v = st.value
+        if isinstance(v, ast.Tuple) and len(v.elts) == 2:
+            lo, hi = _sources(ctx, fn, v.elts[0]), _sources(ctx, fn, v.elts[1])
+            if "getLowerFluxBound" in lo and "getUpperFluxBound" in hi and "getUpperFluxBound" not in lo and "getLowerFluxBound" not in hi:
+                ctx.ok("C10.bounds", fn, "fbc flux bounds", "lower from getLowerFluxBound, upper from getUpperFluxBound")
+            elif "getUpperFluxBound" in lo or "getLowerFluxBound" in hi:
+                ctx.bad("C10.bounds", fn, st, "lower/upper bound are not read from their own fbc flux bound parameters (the value assigned as one bound flows from the getter of the other)")
+            else:
+                ctx.note("C10.bounds: the fbc flux bound getters do not flow into the assigned pair in a recognised way; not read")
     cb = prog.func(MOD, "_create_bound")
-    wsrc = " ".join(ast.unparse(prog.func(MOD, "_model_to_sbml").node).split())
-    if "setLowerFluxBound(_create_bound(model, cobra_reaction, 'lower_bound'" in wsrc and "setUpperFluxBound(_create_bound(model, cobra_reaction, 'upper_bound'" in wsrc:
-        ctx.ok("C10.bounds", cb, "writer flux bounds", "lower bound parameter to setLowerFluxBound, upper to setUpperFluxBound")
+    wfn = prog.func(MOD, "_model_to_sbml")
+    seen_w = {}
+    for n in walk_local(wfn.node):
+        if isinstance(n, ast.Call) and isinstance(n.func, ast.Attribute) and n.func.attr in ("setLowerFluxBound", "setUpperFluxBound") and n.args:
+            consts = {c.value for c in ast.walk(n.args[0]) if isinstance(c, ast.Constant) and isinstance(c.value, str)}
+            for x in ast.walk(n.args[0]):
+                if isinstance(x, ast.Name):
+                    _, defs = ctx.inf.lookup_name(wfn, x.id)
+                    for d in defs or []:
+                        if isinstance(d.value, ast.AST):
+                            consts |= {c.value for c in ast.walk(d.value) if isinstance(c, ast.Constant) and isinstance(c.value, str)}
+            seen_w[n.func.attr] = (n, consts)
+    if set(seen_w) == {"setLowerFluxBound", "setUpperFluxBound"}:
+        lo_c, hi_c = seen_w["setLowerFluxBound"][1], seen_w["setUpperFluxBound"][1]
+        if "lower_bound" in lo_c and "upper_bound" in hi_c and "upper_bound" not in lo_c and "lower_bound" not in hi_c:
+            ctx.ok("C10.bounds", cb, "writer flux bounds", "lower bound parameter to setLowerFluxBound, upper to setUpperFluxBound")
+        elif "upper_bound" in lo_c or "lower_bound" in hi_c:
+            ctx.bad("C10.bounds", cb, seen_w["setLowerFluxBound"][0], "the writer does not attach the lower/upper bound parameter to the matching fbc attribute")
+        else:
+            ctx.note("C10.bounds: which bound the writer hands to setLower/UpperFluxBound is not recognisable; not read")
     else:
-        ctx.bad("C10.bounds", cb, cb.node, "the writer does not attach the lower/upper bound parameter to the matching fbc attribute")
+        ctx.bad("C10.bounds", cb, cb.node, "the writer does not set both fbc flux bounds of a reaction")
 
 
 def check_sign(ctx) -> None:
@@ -687,7 +713,136 @@ def check_import_time_config(ctx) -> None:
     ctx.ok("C10.bounds", None, "parameter defaults", f"{n} parameter defaults of io/sbml.py: none reads the configuration at import time", nontrivial=False)
 
 
+# ------------------------------------------------------------------------------ per-item sentinels
+def check_peritem_sentinels(ctx) -> None:
+    """Readers decide "this element has no X" by a local that is None. Such a sentinel has to be reset in every
+    iteration: if a path from the start of an iteration reaches the `is None` test without passing an assignment of
+    the variable, the test sees the previous element's value (the element silently inherits its neighbour's data and
+    the result depends on the order of the elements in the file)."""
+    n_loops = 0
+    for fn in sorted(ctx.prog.all_funcs(), key=lambda f: f.qualname):
+        if not fn.unit.modname.startswith("cobra.io"):
+            continue
+        loops = [n for n in walk_local(fn.node) if isinstance(n, ast.For)]
+        if not loops:
+            continue
+        g = ctx.flow.cfg(fn)
+        for lp in loops:
+            body_nodes = [n for st in lp.body for n in ast.walk(st)]
+            assigned: Dict[str, List[ast.AST]] = {}
+            for n in body_nodes:
+                if isinstance(n, ast.Name) and isinstance(n.ctx, ast.Store):
+                    assigned.setdefault(n.id, []).append(n)
+            if not assigned:
+                continue
+            targets = {x.id for x in ast.walk(lp.target) if isinstance(x, ast.Name)}
+            sentinels: Dict[str, List[ast.AST]] = {}
+            for n in body_nodes:
+                if isinstance(n, ast.Compare) and len(n.ops) == 1 and isinstance(n.ops[0], (ast.Is, ast.IsNot)) and isinstance(n.comparators[0], ast.Constant) and n.comparators[0].value is None and isinstance(n.left, ast.Name):
+                    v = n.left.id
+                    if v in assigned and v not in targets:
+                        sentinels.setdefault(v, []).append(n)
+            for v, tests in sorted(sentinels.items()):
+                # values assigned in the loop must depend on the element (else it is a flag / accumulator)
+                item_derived = False
+                for st in lp.body:
+                    for a in ast.walk(st):
+                        if isinstance(a, (ast.Assign, ast.AnnAssign)) and a.value is not None and any(isinstance(t, ast.Name) and t.id == v for t in ast.walk(a.targets[0] if isinstance(a, ast.Assign) else a.target)):
+                            if not (isinstance(a.value, ast.Constant)) and not (isinstance(a.value, ast.Tuple) and all(isinstance(e, ast.Constant) for e in a.value.elts)):
+                                item_derived = True
+                if not item_derived:
+                    continue
+                n_loops += 1
+                defs: Set = set()
+                for nm in assigned[v]:
+                    defs |= {x for x in g.node_containing(nm) if x.kind != "with_exit"}
+                first = [x for x in g.node_containing(lp.body[0]) if x.kind != "with_exit"][:1]
+                stale = None
+                for t in tests:
+                    tn = [x for x in g.node_containing(t) if x.kind != "with_exit"]
+                    seen = g.reach(first, avoid=lambda n_: n_ in defs, edge_ok=no_exc, include_start=True)
+                    hit = [x for x in tn if x in seen]
+                    if hit:
+                        stale = (t, g.path_to(seen, hit[0]))
+                        break
+                if stale:
+                    ctx.bad("C10.peritem", fn, enclosing_stmt(stale[0]), f"`{v}` tells whether the current element has the value, but it is not reset at the start of every iteration of the loop over `{norm(lp.iter, 50)}`: an element without it is treated like the previous element (result depends on the order in the file, no default / warning is applied)", path=describe_path(stale[1]))
+                else:
+                    ctx.ok("C10.peritem", fn, tests[0], f"`{v}` is assigned in every iteration before it is tested against None")
+    if n_loops == 0:
+        raise AnalysisError("C10.peritem: no per-item sentinel found in cobra.io (the SBML reader's flux bound parameters are expected)")
+
+
+# ---------------------------------------------------------------------------- def-use sources
+def _sources(ctx, fn: FuncInfo, e: ast.AST, depth: int = 8, seen: Optional[Set[int]] = None) -> Set[str]:
+    """Names of the methods/functions whose results flow (through local assignments, receivers and arguments) into
+    the expression."""
+    out: Set[str] = set()
+    seen = seen if seen is not None else set()
+    if depth < 0 or id(e) in seen:
+        return out
+    seen.add(id(e))
+    for n in ast.walk(e):
+        if isinstance(n, ast.Call):
+            out.add(n.func.attr if isinstance(n.func, ast.Attribute) else norm(n.func))
+        elif isinstance(n, ast.Name) and isinstance(n.ctx, ast.Load):
+            _, defs = ctx.inf.lookup_name(fn, n.id)
+            for d in defs or []:
+                if d.kind in ("assign", "annassign", "unpack", "with", "elem", "elem_unpack") and isinstance(d.value, ast.AST):
+                    out |= _sources(ctx, fn, d.value, depth - 1, seen)
+    return out
+
+
+def check_active_objective(ctx) -> None:
+    """The objective that is read is the document's *active* objective (fbc allows several)."""
+    fn = ctx.prog.func(MOD, "_sbml_to_model")
+    reads = [n for n in walk_local(fn.node) if isinstance(n, ast.Call) and isinstance(n.func, ast.Attribute) and n.func.attr in ("getListOfFluxObjectives", "getType") and "bj" in norm(n.func.value)]
+    reads = [n for n in reads if n.func.attr == "getListOfFluxObjectives" or "direction" in norm(enclosing_stmt(n)).lower()]
+    if not reads:
+        ctx.note("C10.direction: the objective's flux objectives are not read in a recognised way; active objective not read")
+        return
+    for r in reads:
+        src = _sources(ctx, fn, r.func.value)
+        if "getActiveObjective" in src:
+            ctx.ok("C10.direction", fn, r, f"{r.func.attr}() is read from the active objective")
+        elif src & {"get", "getObjective", "getListOfObjectives", "item"}:
+            ctx.bad("C10.direction", fn, enclosing_stmt(r), f"{r.func.attr}() is read from an objective that is not selected through getActiveObjective(): a document with several objectives is read with the wrong objective (coefficients and direction)")
+        else:
+            ctx.note(f"C10.direction: source of the objective read by {r.func.attr}() not recognised ({sorted(src)[:5]})")
+
+
+def check_compartment_source(ctx) -> None:
+    """Every compartment a species refers to is written: the writer ranges over the model's `compartments` property
+    (derived from the metabolites), not over the registry of names `_compartments` (which holds only what was
+    registered explicitly)."""
+    fn = ctx.prog.func(MOD, "_model_to_sbml")
+    creates = [n for n in walk_local(fn.node) if isinstance(n, ast.Call) and isinstance(n.func, ast.Attribute) and n.func.attr == "createCompartment"]
+    if not creates:
+        ctx.bad("C10.fields", fn, fn.node, "the writer creates no compartments")
+        return
+    for c in creates:
+        lp = next((a for a in ancestors(c) if isinstance(a, ast.For)), None)
+        if lp is None:
+            ctx.note("C10.fields: createCompartment outside a loop; source of the compartments not read")
+            continue
+        attrs = {n.attr for n in ast.walk(lp.iter) if isinstance(n, ast.Attribute)}
+        names = _sources(ctx, fn, lp.iter)
+        for n in ast.walk(lp.iter):
+            if isinstance(n, ast.Name):
+                _, defs = ctx.inf.lookup_name(fn, n.id)
+                for d in defs or []:
+                    if isinstance(d.value, ast.AST):
+                        attrs |= {x.attr for x in ast.walk(d.value) if isinstance(x, ast.Attribute)}
+        if "compartments" in attrs or "metabolites" in attrs:
+            ctx.ok("C10.fields", fn, lp, "compartments are written from the model's compartments (every compartment a metabolite is in)")
+        elif "_compartments" in attrs:
+            ctx.bad("C10.fields", fn, lp, "the compartments are written from the registry of compartment names (`_compartments`) only: a compartment that metabolites are in but that was never registered is not written, and the species refer to an undefined compartment (invalid document)")
+        else:
+            ctx.note("C10.fields: source of the written compartments not recognised")
+
+
 def run(ctx) -> None:
+    ctx.rule("C10.peritem", "T6: per-element sentinels of the readers are reset in every iteration", floor=2)
     ctx.rule("C10.kinds", "T7: every id crossing the SBML boundary passes the f_replace function of its own kind", floor=22)
     ctx.rule("C10.escape", "T7: escape/unescape functions, regexes and the replacement table agree", floor=9)
     ctx.rule("C10.inband", "T7: no raw identifier can spell the reader's escape token", floor=1)
@@ -705,9 +860,12 @@ def run(ctx) -> None:
     ctx.guard(check_import_time_config, ctx)
     check_escape(ctx)
     check_bounds(ctx)
+    ctx.guard(check_peritem_sentinels, ctx)
     check_sign(ctx)
     check_direction(ctx)
+    ctx.guard(check_active_objective, ctx)
     check_fields(ctx)
+    ctx.guard(check_compartment_source, ctx)
     check_annot(ctx)
     c08.check_siblings(ctx)
     c02.check_owner(ctx)
